@@ -21,13 +21,17 @@ import (
 )
 
 type scenario struct {
-	part  string // "configs" | "sched"
-	kind  string
-	src   parkit.Source
-	cores int
+	part   string // "configs" | "sched"
+	kind   string
+	src    parkit.Source
+	cores  int
+	assign []int // part "partition": feature i of the source is delivered by goroutine assign[i]
 }
 
 func (s scenario) String() string {
+	if s.part == "partition" {
+		return fmt.Sprintf("%s %s %s delivered-by=%v", s.part, s.kind, s.src.Name, s.assign)
+	}
 	return fmt.Sprintf("%s %s %s cores=%d", s.part, s.kind, s.src.Name, s.cores)
 }
 
@@ -38,7 +42,7 @@ var done bool
 func main() {
 	kit.Main(&kit.Check{
 		ID: "C36", Level: "model_checking",
-		Rule:          "part configs: (source, builder, cores 1..16) run natively, dump vs the 1-core dump. part sched: (source, builder) with 2 cores under the controlled scheduler, every interleaving up to the bound, dump vs the 1-core dump. part validator: the compact builder's shared Validator driven directly by 2-3 goroutines delivering a partition of a feature list, every interleaving, the features handed back for emission vs the schedule-free rule and vs one goroutine alone (delivered area objects are overwritten after each call, as reusing sources do); non-trivial = execution with at least one scheduling choice; distinct = happens-before keys.",
+		Rule:          "part configs: (source, builder, cores 1..16) run natively, dump vs the 1-core dump. part sched: (source, builder) with 2 cores under the controlled scheduler, every interleaving up to the bound, dump vs the 1-core dump. part partition: the builders fed by a source that delivers a fixed order-preserving partition of the feature list from 2 goroutines (the nondeterminism of MemoryFeatureSource reduced to which goroutine gets which feature), dump vs the 1-core dump. part validator: the compact builder's shared Validator driven directly by 2-3 goroutines delivering a partition of a feature list, every interleaving, the features handed back for emission vs the schedule-free rule and vs one goroutine alone (delivered area objects are overwritten after each call, as reusing sources do); non-trivial = execution with at least one scheduling choice; distinct = happens-before keys.",
 		Assumptions:   []string{"code between two synchronisation operations runs atomically; sync/atomic counters are not scheduling points", "map ranges in rewritten packages use one fixed order", "compact scratch buffers reduced to 1 MB by a build-time transform"},
 		QuickDeadline: 250e9, ThoroughDeadline: 1500e9, CaseTimeout: 500e9, Chunk: 1,
 		Build: func(tier string) (kit.Space, string) {
@@ -47,13 +51,13 @@ func main() {
 			for _, kind := range []string{"basic", "compact"} {
 				for _, src := range srcs {
 					for cores := 2; cores <= 16; cores++ {
-						sc = append(sc, scenario{"configs", kind, src, cores})
+						sc = append(sc, scenario{part: "configs", kind: kind, src: src, cores: cores})
 					}
 				}
 			}
 			for _, kind := range []string{"basic", "compact"} {
 				for _, src := range srcs {
-					sc = append(sc, scenario{"sched", kind, src, 2})
+					sc = append(sc, scenario{part: "sched", kind: kind, src: src, cores: 2})
 				}
 			}
 			// basic builds: iterative preemption bounding; compact builds (30x more
@@ -66,7 +70,34 @@ func main() {
 			}
 			const valGroup = 500
 			nVal := (len(vals) + valGroup - 1) / valGroup
-			return kit.FuncSpace{N: int64(len(sc) + nVal), F: func(i int64) kit.Result {
+			// part partition: every order-preserving split of a source's features over 2 goroutines
+			var parts []scenario
+			for _, kind := range []string{"basic", "compact"} {
+				for _, src := range srcs {
+					n := len(src.Spec)
+					for code := 1; code < 1<<(n-1); code++ { // feature 0 on goroutine 0; code 0 = one goroutine
+						assign := make([]int, n)
+						for k := 1; k < n; k++ {
+							assign[k] = (code >> (k - 1)) & 1
+						}
+						parts = append(parts, scenario{part: "partition", kind: kind, src: src, cores: 2, assign: assign})
+					}
+				}
+			}
+			// basic: phase-confined preemption bounding; compact: deviation bounding
+			// (bound 0 = each partition with goroutine 0's list first, then goroutine 1's)
+			partBasicBound, partCompactBound, partExec := 1, 0, int64(3000)
+			if tier == "thorough" {
+				partBasicBound, partCompactBound, partExec = 2, 1, 6000
+			}
+			return kit.FuncSpace{N: int64(len(sc) + nVal + len(parts)), F: func(i int64) kit.Result {
+				if i >= int64(len(sc)+nVal) {
+					ps := parts[i-int64(len(sc)+nVal)]
+					if ps.kind == "compact" {
+						return runBuild(ps, tier, sched.Options{MaxPreemptions: partCompactBound, AllDeviations: true, MaxExecutions: partExec, Horizon: 100000})
+					}
+					return runBuild(ps, tier, sched.Options{MaxPreemptions: partBasicBound, MaxExecutions: 10 * partExec, Horizon: 100000, SinglePhase: true})
+				}
 				if i >= int64(len(sc)) {
 					runtime.GOMAXPROCS(1)
 					var r kit.Result
@@ -98,113 +129,122 @@ func main() {
 					return r
 				}
 				s := sc[i]
-				var r kit.Result
-				ref, err := parkit.Build(s.kind, s.src.Spec, 1)
-				if err != nil {
-					r.Violate("reference-build-error:"+s.kind, "%v [%s]", err, s)
-					return r
-				}
-				want := parkit.Dump(ref)
-				if s.part == "configs" {
-					runtime.GOMAXPROCS(16)
-					// repeat: real goroutines are free-running here, so give the
-					// schedule some chance to vary (auxiliary to part sched)
-					reps := 2
-					if tier == "thorough" {
-						reps = 10
-					}
-					for k := 0; k < reps; k++ {
-						w, err := parkit.Build(s.kind, s.src.Spec, s.cores)
-						if err != nil {
-							r.Violate("build-error:"+s.kind, "%v [%s]", err, s)
-							return r
-						}
-						if cls, d := parkit.DiffString(want, parkit.Dump(w)); cls != "" {
-							r.Violate(fmt.Sprintf("differs-from-1-core:%s:%s", s.kind, cls), "[%s]\n%s", s, d)
-							break
-						}
-					}
-					r.Evals = int64(reps)
-					r.Nontrivial = true
-					r.Key = s.String()
-					r.Outcome = "configs:equal"
-					return r
-				}
-				runtime.GOMAXPROCS(1) // goroutine hand-offs under the controlled scheduler are cheapest on one P
-				body := func() {
-					built, buildErr, done = nil, nil, false
-					built, buildErr = parkit.Build(s.kind, s.src.Spec, s.cores)
-					done = true
-				}
-				check := func(e *sched.Exec) (string, []sched.Failure) {
-					var fails []sched.Failure
-					add := func(class, msg string) {
-						fails = append(fails, sched.Failure{Class: class, Msg: msg + " [" + s.String() + "]"})
-					}
-					for _, ev := range e.Events {
-						if ev.Kind == "panic" {
-							add("panic:"+s.kind, ev.Msg)
-						} else if ev.Kind == "horizon" {
-							add("livelock:"+s.kind, ev.Msg)
-						}
-					}
-					if e.Deadlocked {
-						add("deadlock:"+s.kind, strings.Join(e.Blocked, "; "))
-						return "deadlock", fails
-					}
-					if !done {
-						return "unfinished", fails
-					}
-					if buildErr != nil {
-						add("build-error:"+s.kind, buildErr.Error())
-						return "build-error", fails
-					}
-					// dump natively (the execution is over)
-					if cls, d := parkit.DiffString(want, parkit.Dump(built)); cls != "" {
-						add(fmt.Sprintf("differs-from-1-core:%s:%s", s.kind, cls), d)
-						return "differs", fails
-					}
-					return "equal", fails
-				}
 				opts := sched.Options{MaxPreemptions: basicBound, MaxExecutions: 20 * maxExec, Horizon: 100000, SinglePhase: true}
 				if s.kind == "compact" {
 					opts = sched.Options{MaxPreemptions: compactBound, AllDeviations: true, MaxExecutions: maxExec, Horizon: 100000}
 				}
-				res := sched.Explore(body, check, opts)
-				if s.kind == "compact" {
-					r.Count("compact_build_scenarios_by_deviation_bound", 1)
-				}
-				r.Count("alternatives_cut_by_single_phase_rule", res.PhaseCuts)
-				r.Count("max_phases_in_one_execution", int64(res.Phases))
-				r.Evals, r.States, r.Transitions, r.Distinct = res.Executions, res.States, res.Transitions, res.States
-				r.Nontrivial = res.MaxPoints > 0
-				r.Capped = res.Capped
-				r.Outcomes = res.Outcomes
-				r.Count("executions_pruned_by_hb_cache", res.Pruned)
-				r.Count("max_choice_points_in_one_execution", int64(res.MaxPoints))
-				if res.Unbounded {
-					r.Count("scenarios_explored_without_bound", 1)
-				} else {
-					r.Count(fmt.Sprintf("%s_build_scenarios_completed_to_bound_%d", s.kind, res.BoundCompleted), 1)
-				}
-				for _, f := range res.Failures {
-					e1 := sched.Replay(body, f.Choices, 100000)
-					_, f1 := check(e1)
-					e2 := sched.Replay(body, f.Choices, 100000)
-					_, f2 := check(e2)
-					if fmt.Sprint(f1) != fmt.Sprint(f2) || len(f1) == 0 {
-						r.Violate("harness:nondeterministic-replay", "%s: schedule %v gave %v then %v", f.Class, f.Choices, f1, f2)
-						continue
-					}
-					tr := e1.Trace
-					if len(tr) > 40 {
-						tr = tr[len(tr)-40:]
-					}
-					r.Violate(f.Class, "%s\nschedule (choices): %v\ntrace tail:\n  %s", f.Msg, f.Choices, strings.Join(tr, "\n  "))
-				}
-				r.Sample = map[string]interface{}{"scenario": s.String(), "executions": res.Executions, "states": res.States, "bound_completed": res.BoundCompleted, "capped": res.Capped, "outcomes": res.Outcomes}
-				return r
-			}}, fmt.Sprintf("%d build scenarios (%d sources x 2 builders: configs with cores 2..16 run natively; sched with 2 cores under the controlled scheduler: basic builds every interleaving with at most %d preemptions, deviations confined to one phase between quiescent points, cap %d executions; compact builds every schedule with at most %d departures from the default schedule, cap %d executions) + %d validator scenarios (every ordered delivery of 2..k of 10 menu features (4 paths: closed ccw, open, missing point, closed cw; 6 areas over them, one over a path never delivered) to 2 goroutines (k<=%d) and 3 goroutines (k<=%d), every interleaving, no bound)", len(sc), len(srcs), basicBound, 20*maxExec, compactBound, maxExec, len(vals), 5, map[bool]int{false: 4, true: 5}[tier == "thorough"])
+				return runBuild(s, tier, opts)
+			}}, fmt.Sprintf("%d build scenarios (%d sources x 2 builders: configs with cores 2..16 run natively; sched with 2 cores under the controlled scheduler: basic builds every interleaving with at most %d preemptions, deviations confined to one phase between quiescent points, cap %d executions; compact builds every schedule with at most %d departures from the default schedule, cap %d executions) + %d partition scenarios (every order-preserving split of each source's features over 2 delivering goroutines x 2 builders under the controlled scheduler: basic at most %d preemptions confined to one phase, compact at most %d departures from the default schedule (0 = one goroutine's list after the other's), cap %d executions) + %d validator scenarios (every ordered delivery of 2..k of 10 menu features (4 paths: closed ccw, open, missing point, closed cw; 6 areas over them, one over a path never delivered) to 2 goroutines (k<=%d) and 3 goroutines (k<=%d), every interleaving, no bound)", len(sc), len(srcs), basicBound, 20*maxExec, compactBound, maxExec, len(parts), partBasicBound, partCompactBound, partExec, len(vals), 5, map[bool]int{false: 4, true: 5}[tier == "thorough"])
 		},
 	})
+}
+
+// runBuild judges one build scenario: configs natively, sched and partition under the controlled scheduler.
+func runBuild(s scenario, tier string, opts sched.Options) kit.Result {
+	var r kit.Result
+	ref, err := parkit.Build(s.kind, s.src.Spec, 1)
+	if err != nil {
+		r.Violate("reference-build-error:"+s.kind, "%v [%s]", err, s)
+		return r
+	}
+	want := parkit.Dump(ref)
+	if s.part == "configs" {
+		runtime.GOMAXPROCS(16)
+		// repeat: real goroutines are free-running here, so give the
+		// schedule some chance to vary (auxiliary to part sched)
+		reps := 2
+		if tier == "thorough" {
+			reps = 10
+		}
+		for k := 0; k < reps; k++ {
+			w, err := parkit.Build(s.kind, s.src.Spec, s.cores)
+			if err != nil {
+				r.Violate("build-error:"+s.kind, "%v [%s]", err, s)
+				return r
+			}
+			if cls, d := parkit.DiffString(want, parkit.Dump(w)); cls != "" {
+				r.Violate(fmt.Sprintf("configs:differs-from-1-core:%s:%s", s.kind, cls), "[%s]\n%s", s, d)
+				break
+			}
+		}
+		r.Evals = int64(reps)
+		r.Nontrivial = true
+		r.Key = s.String()
+		r.Outcome = "configs:equal"
+		return r
+	}
+	runtime.GOMAXPROCS(1) // goroutine hand-offs under the controlled scheduler are cheapest on one P
+	body := func() {
+		built, buildErr, done = nil, nil, false
+		if s.part == "partition" {
+			built, buildErr = parkit.BuildFrom(s.kind, parkit.Partition(s.src.Spec, s.assign, 2), s.cores)
+		} else {
+			built, buildErr = parkit.Build(s.kind, s.src.Spec, s.cores)
+		}
+		done = true
+	}
+	check := func(e *sched.Exec) (string, []sched.Failure) {
+		var fails []sched.Failure
+		add := func(class, msg string) {
+			fails = append(fails, sched.Failure{Class: class, Msg: msg + " [" + s.String() + "]"})
+		}
+		for _, ev := range e.Events {
+			if ev.Kind == "panic" {
+				add("panic:"+s.kind, ev.Msg)
+			} else if ev.Kind == "horizon" {
+				add("livelock:"+s.kind, ev.Msg)
+			}
+		}
+		if e.Deadlocked {
+			add("deadlock:"+s.kind, strings.Join(e.Blocked, "; "))
+			return "deadlock", fails
+		}
+		if !done {
+			return "unfinished", fails
+		}
+		if buildErr != nil {
+			add("build-error:"+s.kind, buildErr.Error())
+			return "build-error", fails
+		}
+		// dump natively (the execution is over)
+		if cls, d := parkit.DiffString(want, parkit.Dump(built)); cls != "" {
+			add(fmt.Sprintf("%s:differs-from-1-core:%s:%s", s.part, s.kind, cls), d)
+			return "differs", fails
+		}
+		return "equal", fails
+	}
+	res := sched.Explore(body, check, opts)
+	if opts.AllDeviations {
+		r.Count("compact_build_scenarios_by_deviation_bound", 1)
+	}
+	r.Count("alternatives_cut_by_single_phase_rule", res.PhaseCuts)
+	r.Count("max_phases_in_one_execution", int64(res.Phases))
+	r.Evals, r.States, r.Transitions, r.Distinct = res.Executions, res.States, res.Transitions, res.States
+	r.Nontrivial = res.MaxPoints > 0
+	r.Capped = res.Capped
+	r.Outcomes = res.Outcomes
+	r.Count("executions_pruned_by_hb_cache", res.Pruned)
+	r.Count("max_choice_points_in_one_execution", int64(res.MaxPoints))
+	if res.Unbounded {
+		r.Count(fmt.Sprintf("%s_%s_scenarios_explored_without_bound", s.part, s.kind), 1)
+	} else {
+		r.Count(fmt.Sprintf("%s_%s_scenarios_completed_to_bound_%d", s.part, s.kind, res.BoundCompleted), 1)
+	}
+	for _, f := range res.Failures {
+		e1 := sched.Replay(body, f.Choices, 100000)
+		_, f1 := check(e1)
+		e2 := sched.Replay(body, f.Choices, 100000)
+		_, f2 := check(e2)
+		if fmt.Sprint(f1) != fmt.Sprint(f2) || len(f1) == 0 {
+			r.Violate("harness:nondeterministic-replay", "%s: schedule %v gave %v then %v", f.Class, f.Choices, f1, f2)
+			continue
+		}
+		tr := e1.Trace
+		if len(tr) > 40 {
+			tr = tr[len(tr)-40:]
+		}
+		r.Violate(f.Class, "%s\nschedule (choices): %v\ntrace tail:\n  %s", f.Msg, f.Choices, strings.Join(tr, "\n  "))
+	}
+	r.Sample = map[string]interface{}{"scenario": s.String(), "executions": res.Executions, "states": res.States, "bound_completed": res.BoundCompleted, "capped": res.Capped, "outcomes": res.Outcomes}
+	return r
 }
